@@ -632,6 +632,15 @@ Section Whole.
     cbn [flat_map]. rewrite forallb_app', (IH Ho Hw' N2), andb_true_r. destruct (item_mid it Hi Wi) as [[Tf R]|(l & -> & _)]; [rewrite R; exact Tf|discriminate].
   Qed.
 
+  (* with user lines whose tags all get a value or a default *)
+  Lemma ref_lines_tagfree_user : user_lines_closed a t = true -> forallb tagfree (flat_map (ref_item16 e) t) = true.
+  Proof.
+    pose proof grammar_items as Ho. unfold wf_elements16 in Hw. clear Hg. revert Ho Hw. induction t as [|it t' IH]; intros Ho Hw' Hn; [reflexivity|].
+    cbn [forallb user_lines_closed] in Ho, Hw', Hn. apply andb_prop in Ho as [Hi Ho]. apply andb_prop in Hw' as [Wi Hw']. apply andb_prop in Hn as [N1 N2].
+    cbn [flat_map]. rewrite forallb_app', (IH Ho Hw' N2), andb_true_r. destruct (item_mid it Hi Wi) as [[Tf R]|(l & -> & _)]; [rewrite R; exact Tf|].
+    cbn [ref_item16 forallb el_user with_user]. unfold tagfree. rewrite N1. reflexivity.
+  Qed.
+
   (* the generated file: for any assignment of user tags and any template lines that the first filtering turns into render16 t *)
   Theorem generate_is_ref lines :
     load_file dict lines = Some (render16 t) -> generate_file m dict a lines = Some (ref16 e t).
